@@ -327,6 +327,163 @@ Proof.
 Qed.
 
 (* ------------------------------------------------------------------ *)
+(* what the handler's own Flush calls pass to the client                *)
+
+Lemma upto_last_flush_noflush acts : has_flush acts = false -> upto_last_flush acts = [].
+Proof. destruct acts as [|a r]; [reflexivity|]. intros H. cbn [upto_last_flush]. rewrite H. reflexivity. Qed.
+
+Lemma has_flush_cons a r :
+  has_flush (a :: r) = (match a with AFlush => true | _ => false end) || has_flush r.
+Proof. reflexivity. Qed.
+
+(* phase 1: after the first effective Flush the committed body grows with every further Flush *)
+Lemma committed_flushed : forall acts b w x,
+  rfl w = true -> bfl b = true -> bwrote b = true -> rres w = Some x ->
+  spec_panic true true acts = None ->
+  rw_view (snd (fst (href (b, w) acts))) =
+  (rinfo w, Some x,
+   rbody w ++ (if has_flush acts then bbody b ++ spec_body (upto_last_flush acts) else [])).
+Proof.
+  induction acts as [|a acts IH]; intros b w x Hf Hb Hw Hr Hn.
+  - cbn. rewrite app_nil_r. unfold rw_view. rewrite Hr. reflexivity.
+  - destruct a as [k v|k v|k|c|bs| |p| ];
+      cbn [href hact tw_act fst snd spec_panic] in *; rewrite ?has_flush_cons; cbn [orb].
+    + rewrite (IH (buf_hdr (hset k [v]) b) w x); auto.
+      destruct (has_flush acts) eqn:E; [cbn [upto_last_flush]; rewrite has_flush_cons, E|]; reflexivity.
+    + rewrite (IH (buf_hdr (fun m => hset k (hget k m ++ [v]) m) b) w x); auto.
+      destruct (has_flush acts) eqn:E; [cbn [upto_last_flush]; rewrite has_flush_cons, E|]; reflexivity.
+    + rewrite (IH (buf_hdr (hdel k) b) w x); auto.
+      destruct (has_flush acts) eqn:E; [cbn [upto_last_flush]; rewrite has_flush_cons, E|]; reflexivity.
+    + rewrite Hw in *. cbn [fst snd] in *. rewrite (IH b w x); auto.
+      destruct (has_flush acts) eqn:E; [cbn [upto_last_flush]; rewrite has_flush_cons, E|]; reflexivity.
+    + rewrite Hw. cbn [fst snd].
+      rewrite (IH (mkBuf (bh b) (bbody b ++ bs) (bcode b) true (bfl b)) w x); auto.
+      destruct (has_flush acts) eqn:E; [|reflexivity].
+      cbn [upto_last_flush]. rewrite has_flush_cons, E. cbn. rewrite <- app_assoc. reflexivity.
+    + rewrite (IH b w x); auto.
+      destruct (has_flush acts) eqn:E; [cbn [upto_last_flush]; rewrite has_flush_cons, E|]; reflexivity.
+    + discriminate.
+    + unfold tw_flush. rewrite Hf. cbn [negb fst snd]. rewrite Hb, Hw.
+      set (w1 := rw_hdr (fun d => overlay d (bh b)) w).
+      assert (Hw1 : rw_write (bbody b) w1 =
+                    mkRW (rfl w) (rlive w1) (Some x) (rbody w ++ bbody b) (rinfo w)).
+      { unfold rw_write, rw_wh. assert (Hr1 : rres w1 = Some x) by exact Hr. rewrite Hr1. cbn. rewrite Hr. reflexivity. }
+      rewrite Hw1.
+      rewrite (IH (mkBuf (bh b) [] (bcode b) true true)
+                  (mkRW (rfl w) (rlive w1) (Some x) (rbody w ++ bbody b) (rinfo w)) x Hf eq_refl eq_refl eq_refl Hn).
+      cbn [rinfo rbody bbody upto_last_flush]. rewrite has_flush_cons. cbn [orb spec_body].
+      rewrite <- app_assoc. destruct (has_flush acts) eqn:E.
+      * reflexivity.
+      * rewrite (upto_last_flush_noflush _ E). reflexivity.
+Qed.
+
+(* phase 0, on a Flusher-capable writer, for a run that does flush *)
+Lemma committed_unflushed : forall acts h0 b,
+  bfl b = false -> (bwrote b = false -> bcode b = 200) ->
+  has_flush acts = true ->
+  spec_panic true (bwrote b) acts = None -> status_ok true b acts ->
+  rw_view (snd (fst (href (b, rw_fresh true h0) acts))) =
+  ([], Some (if bwrote b then bcode b else spec_status true acts,
+             overlay h0 (fold_left spec_hdr_act (before_flush acts) (bh b))),
+   bbody b ++ spec_body (upto_last_flush acts)).
+Proof.
+  induction acts as [|a acts IH]; intros h0 b Hb Hc Hfl Hn Hi; [discriminate|].
+  destruct a as [k v|k v|k|c|bs| |p| ];
+    cbn [href hact tw_act fst snd spec_panic spec_body spec_status before_flush] in *;
+    cbn [upto_last_flush]; rewrite Hfl; rewrite has_flush_cons in Hfl; cbn [orb] in Hfl.
+  - rewrite (IH h0 (buf_hdr (hset k [v]) b)); auto.
+  - rewrite (IH h0 (buf_hdr (fun m => hset k (hget k m ++ [v]) m) b)); auto.
+  - rewrite (IH h0 (buf_hdr (hdel k) b)); auto.
+  - pose proof (IH h0 b Hb Hc Hfl) as I. unfold status_ok in *. destruct (bwrote b) eqn:Ew.
+    + cbn [fst snd]. rewrite (I Hn Hi). reflexivity.
+    + destruct (bad_code c) eqn:Eb; [discriminate|]. cbn. cbn in Hi.
+      rewrite (IH h0 (mkBuf (bh b) (bbody b) c true (bfl b)) Hb ltac:(discriminate) Hfl Hn Hi).
+      cbn. rewrite Hi. reflexivity.
+  - cbn.
+    assert (Hi2 : status_ok true (mkBuf (bh b) (bbody b ++ bs) (if bwrote b then bcode b else 200) true (bfl b)) acts).
+    { unfold status_ok in *. cbn. destruct (bwrote b); [exact Hi|reflexivity]. }
+    rewrite (IH h0 (mkBuf (bh b) (bbody b ++ bs) (if bwrote b then bcode b else 200) true (bfl b))
+                Hb ltac:(discriminate) Hfl Hn Hi2).
+    cbn. rewrite <- app_assoc. destruct (bwrote b); reflexivity.
+  - assert (Hi2 : status_ok true b acts) by (unfold status_ok in *; destruct (bwrote b); exact Hi).
+    pose proof (IH h0 b Hb Hc Hfl Hn Hi2) as I. destruct b; cbn in *. exact I.
+  - discriminate.
+  - rewrite (tw_flush_first b h0 Hb). rewrite orb_true_r in Hn.
+    destruct (fl_writer_shape b h0) as (HW1 & [x HW2] & Hw).
+    assert (Hic : is_info (fl_code b) = false).
+    { unfold fl_code, status_ok in *. destruct (bwrote b); [exact Hi|reflexivity]. }
+    rewrite (committed_flushed acts (mkBuf (bh b) [] (fl_code b) true true) (fl_writer b h0) x
+                               HW1 eq_refl eq_refl HW2 Hn).
+    rewrite (Hw Hic) in HW2 |- *. cbn in HW2. inversion HW2; subst x. cbn.
+    unfold fl_code. destruct (has_flush acts) eqn:E.
+    + destruct (bwrote b); reflexivity.
+    + rewrite (upto_last_flush_noflush _ E). cbn. destruct (bwrote b); reflexivity.
+Qed.
+
+(* the client's view of what the handler has flushed itself is the independent description *)
+Lemma committed_view_spec fl h0 pre :
+  spec_panic fl false pre = None -> info_first fl pre = false ->
+  rw_view (committed fl h0 pre) = spec_committed fl h0 pre.
+Proof.
+  intros Hn Hi. unfold spec_committed.
+  destruct (fl && has_flush pre) eqn:E.
+  - apply andb_true_iff in E. destruct E as [-> Hf].
+    unfold committed, start.
+    rewrite (committed_unflushed pre h0 buf0 eq_refl ltac:(reflexivity) Hf Hn Hi).
+    unfold spec_view, spec_frozen, spec_hdrs. cbn [fst snd bwrote buf0 bh bbody app].
+    rewrite (info_first_no_infos _ _ _ _ Hi). reflexivity.
+  - rewrite committed_untouched; [reflexivity|].
+    apply andb_false_iff in E. exact E.
+Qed.
+
+Lemma rw_wh_final c w :
+  is_info c = false -> rres w = None ->
+  rw_wh c w = mkRW (rfl w) (rlive w) (Some (c, rlive w)) (rbody w) (rinfo w).
+Proof. intros Hi Hr. unfold rw_wh. rewrite Hr, Hi. reflexivity. Qed.
+
+Lemma rw_wh_frozen c w x : rres w = Some x -> rw_wh c w = w.
+Proof. intros Hr. unfold rw_wh. rewrite Hr. reflexivity. Qed.
+
+Lemma timeout_write_view k w :
+  rw_view (timeout_write k w) =
+  match rres w with
+  | Some x => (rinfo w, Some x, rbody w ++ reason)
+  | None => (rinfo w, Some (timeout_code k, rlive w), rbody w ++ reason)
+  end.
+Proof.
+  unfold timeout_write. destruct (rres w) eqn:E.
+  - rewrite (rw_wh_frozen _ _ _ E). unfold rw_write. rewrite (rw_wh_frozen _ _ _ E).
+    unfold rw_view. cbn. rewrite E. reflexivity.
+  - rewrite (rw_wh_final _ _ (is_info_timeout_code k) E). unfold rw_write.
+    erewrite rw_wh_frozen by reflexivity. reflexivity.
+Qed.
+
+Lemma committed_unfrozen_live fl h0 pre :
+  rres (committed fl h0 pre) = None -> spec_panic fl false pre = None -> info_first fl pre = false ->
+  rlive (committed fl h0 pre) = h0.
+Proof.
+  intros Hr Hn Hi.
+  pose proof (committed_view_spec fl h0 pre Hn Hi) as V. unfold spec_committed in V.
+  destruct (fl && has_flush pre) eqn:E.
+  - unfold rw_view, spec_view in V. cbn in V. inversion V. congruence.
+  - rewrite committed_untouched; [reflexivity|]. apply andb_false_iff in E. exact E.
+Qed.
+
+(* the timeout result, as the client sees it: the flushed prefix of some prefix of the
+   script, then the reply; for scripts that do not flush through: the reply alone *)
+Lemma timeout_view_spec fl h0 k pre :
+  spec_panic fl false pre = None -> info_first fl pre = false ->
+  rw_view (timeout_write k (committed fl h0 pre)) = timeout_view fl h0 k pre.
+Proof.
+  intros Hn Hi. rewrite timeout_write_view. unfold timeout_view.
+  pose proof (committed_view_spec fl h0 pre Hn Hi) as V.
+  pose proof (committed_unfrozen_live fl h0 pre) as L.
+  destruct (spec_committed fl h0 pre) as [[infos res] body].
+  unfold rw_view in V. inversion V as [[V1 V2 V3]]. rewrite V2 in *.
+  destruct res as [x|]; [reflexivity|]. rewrite (L eq_refl Hn Hi). reflexivity.
+Qed.
+
+(* ------------------------------------------------------------------ *)
 (* the invariant of the REST LTS                                        *)
 
 (* [ex] is the part of [script] the handler chose to run: all of it, or — once the
@@ -1378,4 +1535,21 @@ Proof.
     + assert (t <= 11 * t / 10) by (apply Z.div_le_lower_bound; lia). lia.
     + apply Z.div_le_upper_bound; lia.
   - split; lia.
+Qed.
+
+(* the timeout outcome, as the client sees it, in the checker's terms *)
+Lemma timeout_result_lemma fl h0 script sched k :
+  let s := run (init fl h0 script) sched in
+  sst s = STimeoutRet k ->
+  exists pre, (exists post, script = pre ++ post) /\
+              rw s = timeout_write k (committed fl h0 pre) /\
+              (spec_panic fl false pre = None -> info_first fl pre = false ->
+               rw_view (rw s) = timeout_view fl h0 k pre).
+Proof.
+  intros s Hs.
+  pose proof (all_or_nothing_flush_lemma fl h0 script sched) as O. fold s in O.
+  destruct O as [E|ex E|k' pre E1 E2 E3 E4|p E]; try congruence.
+  assert (k' = k) by congruence. subst k'.
+  exists pre. split; [exact E3|]. split; [exact E4|].
+  intros Hn Hi. rewrite E4. apply timeout_view_spec; assumption.
 Qed.
